@@ -44,6 +44,14 @@ def circ(draw, tier, k1=False):
             else:
                 lam = -ph + 4 * math.pi * draw(st.sampled_from([0, 1, -1]))
             ops.append({"kind": "cu3", "g": "U3", "p": [th, ph, lam], "mods": [["c", k]], "q": perm[: k + 1]})
+        elif r == 6:
+            # a U3 under another wrapper (adjoint, power, controlled adjoint) is not a U3 / controlled U3: no bundled rule applies to it
+            mods = draw(st.sampled_from([[["dag"]], [["pow", 2]], [["dag"], ["c", 1]], [["pow", 3]]]))
+            if cgen.gate_arity({"g": "U3", "mods": mods}) > n:
+                mods = [["dag"]]
+            g = {"g": "U3", "p": [draw(cgen.angles()) for _ in range(3)], "mods": mods, "kind": "other", "wrapped_u3": True}
+            g["q"] = perm[: cgen.gate_arity(g)]
+            ops.append(g)
         else:
             g = draw(cgen.gate_specs(maxq=min(n, 3), names=OTHERS, mods=("dag", "c"), max_mods=1))
             g["kind"] = "other"
@@ -164,6 +172,8 @@ def oracle(spec, k1=False):
         cl.add("cu3_permuted")
     if any(o["kind"] == "u3" for o in spec["ops"]):
         cl.add("plain_u3")
+    if any(o.get("wrapped_u3") for o in spec["ops"]):
+        cl.add("u3_under_other_wrapper")
     if "h" in spec["rules"] and "u3" in spec["rules"] and spec["rules"].index("h") < spec["rules"].index("u3"):
         cl.add("rule_feeding_rule")
     if c.n_qubits > max(q for o in spec["ops"] for q in o["q"]) + 1:
